@@ -90,6 +90,7 @@ def opOb (args : List String) (impl : String) : Verdict :=
 def applyCorruption (spec : String) (d ob : List UInt8) : Option (List UInt8 × List UInt8) :=
   if spec == "-" then some (d, ob) else
   (spec.splitOn ",").foldlM (fun (acc : List UInt8 × List UInt8) c =>
+    if c.startsWith "Td" then (c.drop 2).toString.toNat?.map fun len => (acc.1.take len, acc.2) else
     let which := c.take 1 |>.toString
     match ((c.drop 1).toString.splitOn "^").mapM (·.toNat?) with
     | some [pos, x] =>
@@ -159,6 +160,8 @@ def opEnc (args : List String) (impl : String) : Verdict :=
                 if dg != dig (honest.take len) || len > honest.length then some "emitted bytes are not a prefix of the honest encoding"
                 else if term == "Ok" && len != honest.length then some "Ok with incomplete output"
                 else
+                  let truncAt : Option Nat := (cor.splitOn ",").findSome? fun c =>
+                    if c.startsWith "Td" then (c.drop 2).toString.toNat? else none
                   let hit : Bool := match encDeps ⟨d.length, bs⟩ kind ranges with
                     | none => false
                     | some (dd, od) =>
@@ -169,6 +172,14 @@ def opEnc (args : List String) (impl : String) : Verdict :=
                           x % 256 != 0 && (if which == "d" then pos < d.length && dd.any fun (a, e) => a ≤ pos && pos < e
                            else (kind != .empty) && od.any fun (a, e) => a ≤ pos && pos < e)
                         | _ => false
+                  let cutHit : Bool := match truncAt, encDeps ⟨d.length, bs⟩ kind ranges with
+                    | some len, some (dd, _) => dd.any fun (_, e) => e > len
+                    | _, _ => false
+                  if cutHit && !hit then
+                    (if term.startsWith "Io(UnexpectedEof" then none else some s!"data store too short but reported as {term}")
+                  else if cutHit then
+                    (if term == "Ok" then some "short data store but Ok" else none)
+                  else
                   if hit && term == "Ok" then some "corrupted dependency but Ok"
                   else if hit && !(term.startsWith "ParentHashMismatch" || term.startsWith "LeafHashMismatch") then some s!"corrupted dependency reported as {term}"
                   else if !hit && term != "Ok" then some s!"no dependency corrupted but {term}"
